@@ -266,7 +266,7 @@ def _pattern_shard(item):
 def run(report):
     quick = report.tier == "quick"
     report.rule = RULE
-    switches = sorted(open_switches())
+    switches = sorted(open_switches('C07'))
     ns = env.NPROC * 2
     items = [(_template_shard, (i, ns, switches)) for i in range(ns)]
     per = 60 if quick else 2000
